@@ -9,7 +9,7 @@ CONSTANTS TraceFile, Props
 TraceLog == ndJsonDeserialize(TraceFile)
 VARIABLES l, cnt
 vars == <<l, cnt>>
-Want(kind) == IF kind = "auth" THEN "auth" ELSE IF kind = "token" THEN "enrolled" ELSE "rejected"
+Want(kind) == IF kind = "auth" THEN "auth" ELSE IF kind = "token" THEN "enrolled" ELSE IF kind \in {"baseA", "baseB"} THEN "base" ELSE "rejected"
 Viols(e) ==
   LET o == e.obs IN
   (IF e.res = "panic" THEN {"panic"} ELSE {}) \cup
